@@ -50,6 +50,26 @@ func c13Modules(c *config) []func() *ir.Module {
 			return m
 		})
 	}
+	// constructed, never printed: many metadata definitions listed out of the order of their IDs (explicit IDs
+	// descending, unnumbered ones in between), referred to from a global
+	ms = append(ms, func() *ir.Module {
+		m := ir.NewModule()
+		var first metadata.Definition
+		for k := 0; k < 400; k++ {
+			id := int64(1000 - k)
+			if k%5 == 0 {
+				id = -1
+			}
+			d := &metadata.Tuple{MetadataID: metadata.MetadataID(id), Fields: []metadata.Field{&metadata.String{Value: fmt.Sprintf("t%d", k)}}}
+			m.MetadataDefs = append(m.MetadataDefs, d)
+			if first == nil {
+				first = d
+			}
+		}
+		g := m.NewGlobalDef("g", constant.NewInt(types.I32, 1))
+		g.Metadata = append(g.Metadata, &metadata.Attachment{Name: "dbg", Node: first.(metadata.MDNode)})
+		return m
+	})
 	// constructed, never printed: unnamed globals, locals, blocks, metadata
 	ms = append(ms, func() *ir.Module {
 		m := ir.NewModule()
